@@ -424,3 +424,40 @@ def check_identity_comparisons(ctx: Ctx, classes: Optional[List[str]], floor: in
             clean += 1
     ctx.holds(None, None, f"values are compared by value in {', '.join(classes) if classes else 'pams'}", "no identity comparison of numbers, strings, tuples or instances of a value class", f"{clean} of {nf} functions examined have none")
     ctx.require(nf >= floor, "fewer functions examined than confirmed by reading")
+
+
+def check_configured_params(ctx: Ctx, cname: str, params: Dict[str, str]) -> None:
+    """attributes that hold configured values are written, outside the constructor, with the configured
+    value only: self.<attr> = settings['<key>'] (int()/float() around it, or settings.get(key[, self.attr])).
+    A value that depends on anything else is reported; another spelling of the same read is refused."""
+    from ..kit import short
+
+    p = ctx.program
+    n = 0
+    for m in p.cls(cname).methods.values():
+        if m.name == "__init__":
+            continue
+        for path in ctx.paths(m.qualname):
+            if path.exit[0] == "raise":
+                continue
+            for e in path.walk_events(True):
+                if e.kind != "store" or e.attr not in params or key(strip_ver(e.base)) != "self":
+                    continue
+                n += 1
+                k = params[e.attr]
+                v = strip_ver(e.value)
+                while v[0] == "call" and v[1][0] == "name" and v[1][1] in ("int", "float") and len(v[2]) == 1:
+                    v = strip_ver(v[2][0])
+                good = (f"settings['{k}']", f"settings.get('{k}')", f"settings.get('{k}', self.{e.attr})")
+                label = f"{cname}.{e.attr} is the configured {k}"
+                if key(v) in good:
+                    ctx.holds(m, e.node, label, good[0], short(e.value))
+                    continue
+                deps = sorted({key(x) for x in subterms(v) if x[0] in ("attr", "sym") and key(x) not in ("settings", "self", f"self.{e.attr}")})
+                if deps:
+                    ctx.violated(m, e.node, label, f"self.{e.attr} = {good[0]}", f"{short(e.value)[:120]}: depends on {', '.join(deps)[:120]}")
+                elif any(x[0] == "bool" for x in subterms(v)):
+                    ctx.violated(m, e.node, label, f"self.{e.attr} = {good[0]}", f"{short(e.value)[:120]}: a truth value decides between the configured value and something else")
+                else:
+                    ctx.unrec(m, e.node, label, "the configured value is read in a form that is not modelled", short(e.value)[:120])
+    ctx.require(n >= len(params), f"{cname}: stores of the configured parameters not found")
